@@ -82,7 +82,13 @@ def run_unit(arg):
         timeout = 10000 if tier == "quick" else 60000
         if kind == "custom":
             props, fn = api.CUSTOM[key]
-            res = fn({"repo": repo_root(), "tier": tier, "seed": seed, "prop": prop})
+            try:
+                res = fn({"repo": repo_root(), "tier": tier, "seed": seed, "prop": prop})
+            except BaseException:  # noqa
+                # a mechanical/bounded check that falls over (typically because the code under test now raises
+                # something the check did not expect) has decided nothing: undecided, not a checker crash
+                res = [{"name": f"custom:{key}/check-raised", "kind": "custom", "verdict": "unknown",
+                        "note": "the check itself raised: " + traceback.format_exc()[-600:]}]
             out["obligations"] = res
             out["wall_s"] = time.time() - t0
             return out
